@@ -35,6 +35,8 @@ type RouteOpts struct {
 	// QueryNameClash sometimes gives a query parameter the wire name of a path variable of the
 	// same RPC that is bound to a DIFFERENT field (valid: no field is bound twice).
 	QueryNameClash bool
+	// Streaming sometimes declares an RPC with `stream` on the request and / or the response.
+	Streaming bool
 }
 
 type routeField struct {
@@ -247,6 +249,12 @@ func GenRouteFile(r *R, idx int, o RouteOpts) *ir.Request {
 			}
 			meth.Input = prefix + in.Name
 			meth.Output = prefix + out.Name
+			if o.Streaming && r.P(1, 3) {
+				meth.ClientStreaming, meth.ServerStreaming = r.Bool(), true
+				if r.P(1, 3) {
+					meth.ClientStreaming, meth.ServerStreaming = true, false
+				}
+			}
 			svc.Methods = append(svc.Methods, meth)
 		}
 		f.Services = append(f.Services, svc)
